@@ -1,21 +1,23 @@
 #!/bin/sh
-# usage: regress_all.sh [budget scale]   — runs every seeded change and every own sensitivity
+# usage: regress_all.sh [budget scale] [resume]   — runs every seeded change and every own sensitivity
 # mutant against the quick check of its property and writes seeded/REGRESSION.md.
 SCALE=${1:-0.5}
 cd /verif || exit 2
 OUT=seeded/REGRESSION.md
-echo "# Regression of all deliberately broken versions (quick tier, budget scale $SCALE, $(date -u +%Y-%m-%dT%H:%MZ))" > $OUT
-echo >> $OUT
-echo "| change | property | exit | rules / races reported |" >> $OUT
-echo "|---|---|---|---|" >> $OUT
+export VERIF_RACE_SHRINK_BUDGET=8s   # verdicts only: no need for minimal race replays here
+if [ "$2" = resume ] && [ -f $OUT ]; then RESUME=1; else RESUME=0; fi
+[ $RESUME = 1 ] || echo "# Regression of all deliberately broken versions (quick tier, budget scale $SCALE, $(date -u +%Y-%m-%dT%H:%MZ))" > $OUT
+[ $RESUME = 1 ] || { echo >> $OUT; echo "| change | property | exit | rules / races reported |" >> $OUT; echo "|---|---|---|---|" >> $OUT; }
 for d in seeded/c*/; do
   id=$(basename $d)
+  grep -q "^| $id |" $OUT && continue
   prop=$(python3 -c "import json;print(json.load(open('$d/meta.json'))['property'])")
   r=$(timeout 2400 ./selftest/seeded_run.sh $prop /verif/$d $SCALE | tail -1 | cut -c1-200)
   echo "| $id | $prop | $(echo "$r" | sed 's/exit=\([0-9]*\) .*/\1/') | $(echo "$r" | sed 's/exit=[0-9]* //') |" >> $OUT
 done
 for p in selftest/mutants/*.diff; do
   n=$(basename $p .diff)
+  grep -q "^| $n (own) |" $OUT && continue
   prop=$(echo $n | cut -c1-3 | tr a-z A-Z)
   r=$(timeout 2400 ./selftest/run_mutants.sh $prop $n $SCALE | tail -1 | cut -c1-220)
   echo "| $n (own) | $prop | $(echo "$r" | sed 's/.*exit=\([0-9]*\) .*/\1/') | $(echo "$r" | sed 's/.*exit=[0-9]* //') |" >> $OUT
